@@ -674,14 +674,14 @@ fn main() {
             ops::exhaustive_group_cases(full_len, false, 1, &mut |lines| send("exhaustive".into(), lines, false, false));
             ops::exhaustive_group_cases(canon_len, true, full_len + 1, &mut |lines| send("exhaustive-canonical".into(), lines, false, false));
             // 3. random histories through the store route, with derived histories
-            let n_random = args.extra.get("random").and_then(|s| s.parse().ok()).unwrap_or(if args.focus.is_some() { 80_000 } else { args.budget(2500, 150_000) });
+            let n_random = args.extra.get("random").and_then(|s| s.parse().ok()).unwrap_or(if args.focus.is_some() { 80_000 } else { args.budget(2500, 40_000) });
             for i in 0..n_random {
                 let mut rng = Rng::for_case(args.seed, i);
                 let lines = ops::random_case(&mut rng, i);
                 send(format!("random:{i}"), lines, false, true);
             }
             // 4. end to end through KML / KQL
-            let n_kml = args.extra.get("kml").and_then(|s| s.parse().ok()).unwrap_or(if args.focus.is_some() { 1000 } else { args.budget(120, 3000) });
+            let n_kml = args.extra.get("kml").and_then(|s| s.parse().ok()).unwrap_or(if args.focus.is_some() { 1000 } else { args.budget(120, 800) });
             for i in 0..n_kml {
                 let mut rng = Rng::for_case(args.seed ^ 0x6b6d6c, i);
                 let lines = ops::random_kml_case(&mut rng);
